@@ -37,7 +37,13 @@ def render_scores(rank, desc, dtype, scale):
             # whose negation wraps around in its own dtype)
             v[v == v.min()] = np.iinfo(dtype).min
         return v.astype(dtype)
-    if scale == "affine":
+    if scale == "tiny" and dtype == "float64":
+        x = 0.5 + 1e-9 * base          # distinct doubles closer together than single precision resolves
+        return x.astype(dtype)
+    if scale == "huge" and dtype == "float64":
+        x = 1e9 + base                 # well separated doubles far from 0 (single precision resolves 64 there)
+        return x.astype(dtype)
+    if scale in ("affine", "tiny", "huge"):
         x = 0.37 * base - 1.5
     else:
         x = np.exp(base / 3.0) if base.max() < 200 else np.log1p(base) * 7.0
@@ -138,7 +144,7 @@ def make_case(idx, rank, tgt, desc, rng, full=None):
     c = {"rank": list(rank), "tgt": list(tgt), "desc": desc}
     c["dtype"] = DTYPES[idx % 6]
     c["enc"] = ENCS[(idx // 6) % 3]
-    c["scale"] = SCALES[(idx // 18) % 2]
+    c["scale"] = (SCALES + ["tiny", "huge"])[(idx // 18) % 4]
     a = (idx // 2) % 7
     c["api"] = APIS[a] if a < 5 else "tdc"
     if c["api"] == "qvalues_from_scores":
